@@ -128,7 +128,7 @@ def _check_selection(res: Result, proj: Project):
                     sites.append((f, n, r[1]))
     for f, call, cls in sites:
         res.saw(f)
-        ok, why = _gated(f, call)
+        ok, why = _gated(f, call, proj)
         res.check(ok, "X1", f"{f.short}:constructs-{cls.name}", f.loc(call), ok_detail=why, bad_detail=why)
     # uses of the possibly-unbound name
     if "cplex" in guarded_names:
@@ -147,12 +147,47 @@ def _check_selection(res: Result, proj: Project):
         res.ok("X1", "cplex:import-unguarded", cplex_mod.relpath, "cplex is imported unconditionally by its back-end")
 
 
-def _gated(f, call):
+_GATE_PREDICATES = {}
+
+
+def gate_predicates(proj: Project):
+    """Functions of the package that answer "can cplex be imported?": a body whose `try` imports cplex and returns a
+    true constant, with an ImportError / ModuleNotFoundError handler returning a false one."""
+    if _GATE_PREDICATES.get("proj") is proj:
+        return _GATE_PREDICATES["names"]
+    names = set()
+    for g in proj.all_functions():
+        for t in [n for n in ast.walk(g.node) if isinstance(n, ast.Try)]:
+            imports = any(isinstance(s_, (ast.Import, ast.ImportFrom)) and any(a.name.split(".")[0] == "cplex" for a in s_.names)
+                          for s_ in t.body)
+            if not imports:
+                continue
+            handlers = [h for h in t.handlers if h.type is None or any(
+                (dotted(x) or "").split(".")[-1] in ("ImportError", "ModuleNotFoundError", "Exception")
+                for x in (h.type.elts if isinstance(h.type, ast.Tuple) else [h.type]))]
+            false_in_handler = any(isinstance(r, ast.Return) and isinstance(r.value, ast.Constant) and r.value.value is False
+                                   for h in handlers for r in ast.walk(h))
+            true_after = any(isinstance(r, ast.Return) and isinstance(r.value, ast.Constant) and r.value.value is True
+                             for r in ast.walk(g.node))
+            if false_in_handler and true_after:
+                names.add(g.name)
+    _GATE_PREDICATES.update(proj=proj, names=names)
+    return names
+
+
+def _gated(f, call, proj=None):
     """The constructor call is in the body of a `try` that first imports cplex (or tests availability) and has an
-    ImportError / ModuleNotFoundError handler that does something else than passing."""
+    ImportError / ModuleNotFoundError handler that does something else than passing - or in the true branch of an `if`
+    whose test calls a function that performs exactly that test (see gate_predicates)."""
     p = parent(call)
     cur = call
     while p is not None and p is not f.node:
+        if isinstance(p, (ast.If, ast.IfExp)) and proj is not None:
+            in_body = (cur in p.body) if isinstance(p, ast.If) else (cur is p.body)
+            calls = [c for c in ast.walk(p.test) if isinstance(c, ast.Call) and (dotted(c.func) or "").split(".")[-1] in gate_predicates(proj)]
+            negated = any(isinstance(x, ast.UnaryOp) and isinstance(x.op, ast.Not) for x in ast.walk(p.test))
+            if calls and ((in_body and not negated) or (not in_body and negated)):
+                return True, f"in the branch where `{dotted(calls[0].func)}()` (a try-import of cplex) answered True"
         if isinstance(p, ast.Try) and any(cur is s or any(cur is x for x in ast.walk(s)) for s in p.body):
             imports = False
             for s in p.body:
@@ -380,13 +415,17 @@ def _check_pruning(res: Result, proj: Project):
         got_orders = sorted(all_a[a] for a in feas if a in all_a)
         want_all = sorted(o for o in all_weak_orders(n) if _respects(o, sccs))
         want_strict = sorted(o for o in want_all if len(set(o)) == n)
-        good = feas <= set(all_a) and got_orders in (want_all, want_strict) or \
-            all(_respects(o, sccs) for o in got_orders) and set(map(tuple, want_strict)) <= set(map(tuple, got_orders))
+        stray = sorted(a for a in feas if a not in all_a)
+        good = not stray and (got_orders in (want_all, want_strict) or
+                              all(_respects(o, sccs) for o in got_orders)
+                              and set(map(tuple, want_strict)) <= set(map(tuple, got_orders)))
         res.check(good, "X5", f"pulp:component-order-constraints:{sccs}",
                   "corankco/algorithms/exact/exactalgorithmpulp.py",
                   ok_detail=f"with components {sccs} the feasible rankings are those placing earlier components first",
-                  bad_detail=f"components {sccs}: feasible rankings (bucket ids) {got_orders}, rankings respecting the "
-                             f"component order {want_all}")
+                  bad_detail=(f"components {sccs}: the model accepts the assignment "
+                              f"{sorted(k for k, v in stray[0] if v)} = 1, which is not a ranking with ties" if stray else
+                              f"components {sccs}: feasible rankings (bucket ids) {got_orders}, rankings respecting the "
+                              f"component order {want_all}"))
     # (b) no-tie optimisation in the CPLEX builders
     C1 = proj.cls(ALG + ".exact.exactalgorithmcplexforpaperoptim1", "ExactAlgorithmCplexForPaperOptim1")
     CC = proj.cls(ALG + ".exact.exactalgorithmcplex", "ExactAlgorithmCplex")
